@@ -123,6 +123,7 @@ static int cmp_ev(const void* a, const void* b) { const uint64_t* x = a; const u
 static uint64_t n_rounds(void) { return pv_scaled(3, 5) * 2; }
 static void run_rounds(uint64_t idx, pv_rng* rng) {
     int nt = (idx & 1) ? 16 : 8;
+    if (pv.tier && idx % 5 == 4) nt = 32;          /* thorough: more threads than cores as well */
     /* which dependency table the threads run under: all entries injected / libc clock / libc clock + malloc + free
      * ("once dependencies are injected" covers every valid table, and the libc fall-backs are library code too) */
     int kind = (int)(idx % 3);
